@@ -172,10 +172,11 @@ Definition approx_eqb (tol : Z) (r : jsnum) (f : f64) : bool :=
 Definition of_Z_is_exact (z : Z) : bool :=
   match trunc_Z (of_Z z) with Some k => k =? z | None => false end.
 
-(* x ** y on integers, y >= 0: exact when the power is representable, else within 16 ulps of the rounded power *)
+(* x ** y on integers, y >= 0: exact when the power is representable, else within 128 ulps of the rounded power
+   (Go math.Pow loses up to ~20 ulps at exponent 32..70; a wrapped int64 result is off by orders of magnitude) *)
 Definition check_pow (x y : Z) (r : jsnum) : bool :=
   let P := x ^ y in
-  if of_Z_is_exact P then jsnum_eqb r (S_pow x y) else approx_eqb 16 r (of_Z P).
+  if of_Z_is_exact P then jsnum_eqb r (S_pow x y) else approx_eqb 128 r (of_Z P).
 
 Definition check_parseInt (s : list Z) (radix : Z) (r : jsnum) : bool :=
   match parseInt_math s radix with
@@ -192,6 +193,7 @@ Inductive tcase :=
 | CVal (bits : Z) (r : jsnum)            (* some producer yielded the double [bits]; r = its representation *)
 | CEq (a b : jsnum) (obs : list bool)    (* representations of two produced values + what scripts observe *)
 | CStr (us : list Z) (r : jsnum)         (* Number(s) / +s / s*1 on a string of UTF-16 units *)
+| CStrAbs (us : list Z) (r : jsnum)      (* Math.abs(s) *)
 | CPow (x y : Z) (r : jsnum)             (* x ** y / Math.pow(x, y) on integer operands, y >= 0 *)
 | CPInt (us : list Z) (radix : Z) (r : jsnum)   (* parseInt(s, radix) *)
 | CPFloat (us : list Z) (r : jsnum)      (* parseFloat(s) *)
@@ -208,7 +210,7 @@ Definition eq_impl (a b : jsnum) : list bool :=
   let z := same_value_zero_spec (num_sem (canon_of (val a))) (num_sem (canon_of (val b))) in
   [sameAs a b; sameAs b a; strictEquals a b; strictEquals b a;
    sameValueZero a b && (hash (norm_zero a) =? hash (norm_zero b));
-   sameAs (norm_zero b) a;      (* includes: only the search element is normalised (builtin_array.go:649) *)
+   sameAs (norm_zero b) (norm_zero a);   (* includes: search element and stored element normalised (fix a58f243) *)
    sameValueZero a b && (hash (norm_zero a) =? hash (norm_zero b)); z].
 
 Definition bools_eqb (a b : list bool) : bool :=
@@ -221,6 +223,7 @@ Definition expected_S (c : tcase) : list jsnum * list bool :=
   | CVal bits _ => ([canon_of (of_bits bits)], [])
   | CEq a b _ => ([], eq_spec a b)
   | CStr us _ => ([canon_of (StringToNumber us)], [])
+  | CStrAbs us _ => ([canon_of (fabs (StringToNumber us))], [])
   | CPow x y _ => ([S_pow x y], [])
   | CPInt us radix _ => ([canon_of (S_parseInt us radix)], [])
   | CPFloat us _ => ([canon_of (S_parseFloat us)], [])
@@ -243,6 +246,7 @@ Definition check_case (c : tcase) : bool :=
   | CVal bits r => jsnum_eqb r (canon_of (of_bits bits))
   | CEq a b obs => bools_eqb obs (eq_spec a b)
   | CStr us r => jsnum_eqb r (canon_of (StringToNumber us))
+  | CStrAbs us r => jsnum_eqb r (canon_of (fabs (StringToNumber us)))
   | CPow x y r => check_pow x y r
   | CPInt us radix r => check_parseInt us radix r
   | CPFloat us r => jsnum_eqb r (canon_of (S_parseFloat us))
